@@ -7,6 +7,7 @@ package c13
 import (
 	"bytes"
 	"fmt"
+	"github.com/go-logr/logr"
 	"hash/crc32"
 	"io"
 	"log"
@@ -535,6 +536,13 @@ func composite(rng *rand.Rand, withSource bool) (*built, error) {
 		}
 		members = append(members, m)
 		list = append(list, m)
+	}
+	// one member of the logr family (its own methods are not synchronised: the composite's exclusive lock is what keeps a
+	// SetLogSource apart from the Log / LogError calls of other producers); what it writes is discarded
+	if lm, lerr := logs.NewLogrLogger(logr.Discard(), "c13-logr-member"); lerr == nil {
+		list = append(list, lm)
+	} else {
+		return nil, lerr
 	}
 	var l logs.IMultipleLoggers
 	var err error
